@@ -4,6 +4,8 @@ mod error_context;
 mod inspect;
 mod print_diff;
 mod rule_overwrite;
+#[cfg(ast_grep_verif)]
+mod verif_sched;
 mod worker;
 
 pub use args::{ContextArgs, InputArgs, OutputArgs, OverwriteArgs};
@@ -94,6 +96,12 @@ pub fn prompt(prompt_text: &str, letters: &str, default: Option<char>) -> Result
 }
 
 fn read_file(path: &Path) -> Result<String> {
+  #[cfg(ast_grep_verif)]
+  {
+    if verif_sched::fault(path) {
+      return Err(anyhow!("verif: injected read fault"));
+    }
+  }
   let file_content =
     read_to_string(path).with_context(|| format!("Cannot read file {}", path.to_string_lossy()))?;
   // skip large files or empty file
